@@ -5,7 +5,7 @@ import ast
 import math
 from fractions import Fraction
 
-from ..astu import U, S, has, walk_shallow, call_name, calls_in, kwarg, linform, lin_str, monomial, mono_str, default_atom
+from ..astu import param_default, U, S, has, walk_shallow, call_name, calls_in, kwarg, linform, lin_str, monomial, mono_str, default_atom
 from ..cfg import find_guards
 from ..core import AnalysisError, Mutant, Rule, Twin
 from ..dims import V, opaque, mk_dim, dim_str, units_ns, constants_ns, lx_const
@@ -70,6 +70,13 @@ def r1_ionic_strength(ctx):
     ok = has(fn, "charges, molalities = zip(*[(substances[k].charge, v) for k, v in molalities.items()])")
     ctx.check(ok, a, "charges-aligned", "charges and molalities must come from one zip over molalities.items()", node=fn)
     ctx.check(has(fn, "if len(molalities) != len(charges): raise ValueError("), a, "length-guard", "length mismatch must raise", node=fn)
+    if len(others) == 1:
+        kinds2 = sorted(k for k, _, _, _ in accs[others[0]])
+        ctx.check(kinds2 == ["+=", "="], a, "net-sum-over-all-ions", "the net charge must start with the first term and ADD the rest (found %s)" % kinds2, node=fn)
+    ctx.check(has(fn, "if charges is None: if substances is None: substances = ' '.join(molalities.keys())"), a, "charges-from-formulas-only-when-missing",
+              "given charges are used; they are read from the formulas only when None", node=fn)
+    d = param_default(fn, "warn")
+    ctx.check(d is not None and U(d) == "True", a, "warns-by-default", "the neutrality warning is on by default", node=fn)
 
 
 def _modes(ctx, name, spec):
@@ -225,6 +232,22 @@ def r3_log_gamma(ctx):
         lf = linform(inner)
         ok = set(lf) == {"sqrt_I_I0 / (1 + sqrt_I_I0)", "C * I_I0"} and all(v_ == 1 for v_ in lf.values())
     ctx.check(ok, a, "davies-form", "Davies must be -A*z**2*(sqrt/(1+sqrt) + C*I/I0); found %s" % U(ret.value), node=ret)
+    if ok:
+        ctx.check(m[1][par[0]] == {"1": F1}, a, "davies-bracket-multiplied", "the bracket multiplies -A*z**2 (exponent +1); found exponent %s" % m[1][par[0]], node=ret)
+    ctx.check(env.get("I_I0") == (F1, {"IS": {"1": F1}, "I0": {"1": -F1}}) and env.get("sqrt_I_I0") == (F1, {"IS": {"1": H}, "I0": {"1": -H}}), a, "sqrt(I/I0)",
+              "I_I0 / sqrt_I_I0 must be IS/I0 and its square root", node=dv)
+    # `one` is an exact 1 of the backend; reference ionic strength defaults to 1; Davies' C is -0.3
+    for q in ("limiting_log_gamma", "extended_log_gamma", "davies_log_gamma"):
+        fn = ctx.func(EL, q)
+        ones = [s_ for s_ in fn.body if isinstance(s_, ast.Assign) and U(s_.targets[0]) == "one"]
+        ok1 = len(ones) == 1 and isinstance(ones[0].value, ast.BinOp) and isinstance(ones[0].value.op, ast.Pow) and isinstance(ones[0].value.right, ast.Constant) and ones[0].value.right.value == 0
+        ctx.check(ok1, EL + ":" + q, "one=x**0", "`one` must be <something> ** 0; found %s" % [U(o.value) for o in ones], node=fn)
+        d = param_default(fn, "I0")
+        ctx.check(d is not None and U(d) == "1", EL + ":" + q, "I0-default-1", "the reference ionic strength defaults to 1", node=fn)
+    for q, want_c in (("davies_log_gamma", "-0.3"), ("davies_activity_product", "-0.3"), ("extended_log_gamma", "0"), ("extended_activity_product", "0")):
+        fn = ctx.func(EL, q)
+        d = param_default(fn, "C")
+        ctx.check(d is not None and U(d) == want_c, EL + ":" + q, "C-default", "the default C of %s is %s; found %s" % (q, want_c, U(d) if d is not None else None), node=fn)
     # activity products
     for q, lg, extra in (("limiting_activity_product", "limiting_log_gamma", ["IS", "z[idx]", "Aval"]),
                          ("extended_activity_product", "extended_log_gamma", ["IS", "z[idx]", "a[idx]", "Aval", "Bval", "C"]),
